@@ -787,3 +787,23 @@ PROPS["C03"]["rule"] += (" Public parsers (ops nf*): every string of <=3 (thorou
                          "length 63..65, 127..129, 4095..4097; malformed streams for the byte-exact error response (nferr); Engine.Serve with the H2C sniffer "
                          "on/off around the HTTP/2 client preface (nfh2c); chunked bodies whose first k chunk sizes sum exactly to the limit; "
                          "unallocatable Content-Length / chunk sizes on the client reader.")
+# X14: handlers that consume a streamed body through hertz's own request API (op sapi, harness/c14api.go)
+PROPS["C14"]["rule"] += (
+    " Op sapi (request API on a streamed body; the program is applied to the upload requests, the pipelined probe has a handler that does not touch the body): programs "
+    "{none, Read loop, MultipartForm, FormValue, PostForm, MultipartForm then reading the remainder, Body(), BodyWriteTo, CloseBodyStream, ResetBody, SetBodyStream(wrapper) then reads "
+    "through the wrapper, reads then Body()} x framing {Content-Length (multipart pre-parsing off, so streamed), chunked with arbitrary chunking, chunked with trailers} x body kind "
+    "{multipart/form-data with two fields and a file of 0..5000 bytes, optional preamble, epilogue of 0, 2, 5, 37, 4095, 4097, 5000, 8193, 9000, 20000 bytes behind the closing boundary; "
+    "application/x-www-form-urlencoded up to 9 KB; opaque bytes of 0..20000 that read as HTTP} x {HTTP/1.1, HTTP/1.0 + Connection: keep-alive} x {with, without Expect: 100-continue} x "
+    "read sizes {1,7,512,4096,16384} x stop points {0,1,3,10,100,4096,8192,8193,9000,100000} x random segmentation x {peer closes, stalls}; one or two uploads followed by the probe, "
+    "with the generator's ground truth (targets, bodies, form contents); malformed chunk framing followed by a complete request under every program; truncated uploads and uploads "
+    "whose payload is mutated (no ground truth).")
+_upd("C14", "Handlers that consume the stream through the request API: the loop's post-handler step is modelled as in server.go (skipRest and the check of a remembered read error "
+     "run only if the request still references the stream the server built); proved for every program (any read size, stop point, any amount the multipart reader takes): what a form "
+     "parse obtains is a prefix of the body (form_parse_reads_prefix, _fixed), the connection is closed or in sync after every program that keeps the stream or read it to its reported "
+     "end (sync_after_any_consumption_partial, _fixed_partial, sync_after_form_parse, body_all_reads_everything), the extended loop is the earlier loop for attached programs "
+     "(attached_is_plain_model) and goes on at exactly the rest (after_means_next_request_from_rest_any_program). The unrestricted statement is false of the code "
+     "(detached_stream_is_drained_or_closed_fails_at, sync_after_any_consumption_fails_at, stream_error_closes_fails_at_detached): known finding stream-detached-undrained. Spec step for "
+     "sapi, against the ground truth: handlers see an initial run of the requests sent, bytes obtained are a prefix (after a form parse: a suffix) of the body, a form API reports "
+     "exactly the fields and files sent, a request that arrived whole is never answered with an error.")
+PROPS["C14"]["level_note"] += (" The amount mime/multipart takes from the stream is not modelled (bufio read-ahead): the model is evaluated for the two extremes and the theorems hold "
+                               "for any amount. A handler that keeps the stream and reads it in a goroutine after returning is not covered.")
